@@ -106,6 +106,23 @@ def run(ck):
                 lid = len(lemmas)
                 lemmas.append((lid, f'Lemma c_{lid} : Rabs ({term} - {coq_R(float(Kf[a, b]))}) <= {coq_R(2e-9)}.\nProof. kern_closed. kern_simpl. interval with (i_prec 50). Qed.'))
                 lmeta[lid] = desc
+        # adaptive bandwidth: after a reset, the first Gram matrix of either path re-estimates the bandwidth from its own distances
+        if kn in ('l2', 'lpq') and i % 2 == 0:
+            da, fa = mk(), mk()
+            fa.set_categorical_indices(torch.tensor(num_idx, dtype=torch.long), [torch.tensor(ix, dtype=torch.long) for ix in cat_idx],
+                                       [torch.eye(lv, dtype=torch.float64) for lv in levels], device='cpu')
+            for kk in (da, fa):
+                kk.bandwidth_mode = 'adaptive'; kk._reset_adaptive_bandwidth()
+            try:
+                with xr.quiet():
+                    Ka = da.get_kernel_matrix(T(X), T(X), mt).double().numpy(); Kb = fa.get_kernel_matrix(T(X), T(X), mt).double().numpy()
+                ck.count('kernel-level adaptive reset')
+                if abs(float(da.bandwidth) - float(fa.bandwidth)) > 1e-9 * float(da.bandwidth) or np.max(np.abs(Ka - Kb)) > 1e-8:
+                    ck.violation(f'{kn}: after a bandwidth reset the categorical fast path adapts to {float(fa.bandwidth)!r} / differs by {np.max(np.abs(Ka - Kb)):.3g} '
+                                 f'from the dense path (bandwidth {float(da.bandwidth)!r}) on {desc}', dict(desc, dense_bw=float(da.bandwidth), fast_bw=float(fa.bandwidth)),
+                                 key=json.dumps(dict(site='adaptive-fast', kernel=kn)))
+            except Exception as e:
+                ck.notes.append(f'adaptive fast-path matrix raised on {desc}: {e!r}'[:200])
         # AGOP: block restricted
         mask = np.zeros((d, d), dtype=bool)
         for idx in [num_idx] + cat_idx:
@@ -146,9 +163,11 @@ def run(ck):
         cinfo = dict(numerical_indices=torch.tensor(num_idx, dtype=torch.long), categorical_indices=[torch.tensor(ix, dtype=torch.long) for ix in cat_idx],
                      categorical_vectors=[torch.eye(lv) for lv in levels])
         outs = {}
+        bwm = ['constant', 'adaptive'][(i // 2) % 2]           # adaptive: the bandwidth is re-estimated from the distance matrix the path itself computes
         for tag, ci in (('dense', None), ('fast', cinfo)):
             xr.seed_all(1500 + i)
-            mm = xr.xRFM(rfm_params=xr.default_rfm_params(kernel=kern, iters=0, reg=1e-2, bandwidth=3.0, exponent=[1.0, 1.2][i % 2], fast_categorical=(ci is not None), **extra),
+            mm = xr.xRFM(rfm_params=xr.default_rfm_params(kernel=kern, iters=0, reg=1e-2, bandwidth=3.0, exponent=[1.0, 1.2][i % 2], fast_categorical=(ci is not None),
+                                                          bandwidth_mode=bwm, **extra),
                          max_leaf_size=1000, verbose=False, use_temperature_tuning=False, categorical_info=ci)
             try:
                 with xr.quiet():
@@ -158,15 +177,15 @@ def run(ck):
                 ck.notes.append(f'model-level categorical fit ({tag}, {kern}) raised {e!r}'[:200])
         if len(outs) < 2:
             ck.count('model-level categorical fit raised'); continue
-        ck.case(dict(kind='model-categorical', kernel=kern, levels=levels, nnum=nnum, nout=nout), nontrivial=True); ck.count(f'model-level categorical {kern}')
+        ck.case(dict(kind='model-categorical', kernel=kern, levels=levels, nnum=nnum, nout=nout), nontrivial=True); ck.count(f'model-level categorical {kern} bandwidth {bwm}')
         dev = float(np.max(np.abs(outs['dense'][0] - outs['fast'][0])))
         scale = 1.0 + float(np.abs(outs['dense'][0]).max())
         if not outs['fast'][1].trees[0]['model'].kernel_obj.handle_categorical:
             ck.violation(f'categorical_info and fast_categorical=True were given but the leaf kernel does not use the categorical path ({kern})', dict(kernel=kern), key='model-cat-ignored')
         if dev > 2e-4 * scale:
             ck.violation(f'xRFM fitted with categorical_info predicts differently from the same fit on the dense one-hot columns: max dev {dev:.3g} '
-                         f'(kernel {kern}, levels {levels}, {nnum} numerical, {nout} outputs)', dict(kernel=kern, levels=levels, nnum=nnum, nout=nout, dev=dev),
-                         key=json.dumps(dict(site='model-categorical', kernel=kern)))
+                         f'(kernel {kern}, levels {levels}, {nnum} numerical, {nout} outputs)', dict(kernel=kern, levels=levels, nnum=nnum, nout=nout, bandwidth_mode=bwm, dev=dev),
+                         key=json.dumps(dict(site='model-categorical', kernel=kern, bw=bwm)))
     res = ck.run_lemma_files('cat', kreal.RHEADER, lemmas, shard=3, timeout=900)
     bad = [lmeta[k] for k, v in res.items() if not v]
     ck.obligation(f'correspondence: {len(lemmas)} fast-path kernel entries within tolerance of the Coq dense op-sequence model on the one-hot rows (interval-certified)',
